@@ -1,6 +1,7 @@
 import Splipy.Lemmas.C18Cells
 import Splipy.Lemmas.C18Sort
 import Splipy.Lemmas.C18Ifem
+import Splipy.Lemmas.C18IfemB
 import Splipy.Lemmas.C18Faces
 import Splipy.Lemmas.C18NumberingE
 import Splipy.Lemmas.C18Example
@@ -23,7 +24,7 @@ top node, which the correspondence run checks case by case — straight off the 
 kernel can evaluate (the catalogue uses hash maps, which it cannot).
 -/
 
-open Splipy Splipy.MP
+open Splipy Splipy.MP Splipy.MP.C18L
 
 /-! ## numbering -/
 
@@ -251,46 +252,61 @@ theorem C18_ifem_format_bijective :
     have hall : ∀ o ∈ Orientation.all 1, o.ifemFormat = some (if o.flip = [true] then 1 else 0) := by decide
     exact hall o ((Orientation.mem_all 1 o).2 ho)
 
-/-- **The connection list names every interface exactly once** (loop nest of
-    `IFEMWriter.connections` on the catalogue model).  If `connections()` succeeds with `cs`, then
-    `cs`, read as quadruples `(master, midx, slave, sidx)` (0-based), is the list `connPairs`, and
-    * a quadruple `(a, i, b, j)` is listed iff the `i`-th codimension-1 node of the top node `a`
-      is the `j`-th codimension-1 node of the top node `b`, `b` is registered as a neighbour of
-      that node, and `a < b`, or `a = b` and `i < j` (a self-connection) — master never above slave;
-    * no quadruple is listed twice.
-    `orient` of the entry is `ifem_format` of `Orientation.compute(master section, slave section)`
-    (definition of `connOf`; sound by `C17_compute_sound`, a bijective code by
-    `C18_ifem_format_bijective`).
+/-- **The connection list names every interface exactly once, with the geometrically coincident
+    face indices and their relative orientation.**  Let a fresh `SplineModel(P, D, frh)`,
+    `1 ≤ P ≤ 3`, receive any list of patches of the universe of C17 (`GU nc`: well-formed,
+    non-rational) — any insertion order, any orientation of every patch, any twins policy.  Then
+    `connections()` does not raise; let `cs` be its result.  With `≈` = "`Orientation.compute` does not raise" (`Equiv`;
+    by `C17_compute_sound` an orientation mapping net and bases of one object onto the other):
+    * `cs`, read as quadruples `(master, midx, slave, sidx)` (0-based), is the list `connPairs`,
+      which has no repetition;
+    * `(a, i, b, j)` is listed **iff** face `i` of the patch at position `a` and face `j` of the
+      patch at position `b` (positions in `top_nodes()`, the order of the `.g2` file; faces in
+      `sections(P, P-1)` order = IFEM numbering) are the same entity, `section_a,i ≈ section_b,j`,
+      and `a < b`, or `a = b` and `i < j` (self-connection): every interface exactly once, master
+      never above slave;
+    * every entry is `connOf` of its quadruple: `orient = ifem_format(Orientation.compute(master
+      section, slave section))`, a code that determines the relative orientation
+      (`C18_ifem_format_bijective`).
+    The catalogue facts used are `C17_catalogue_counts` (`higher_nodes` = incidences, a lower link
+    IS the node `F` iff the section is `≈` to `F`'s object, `nodes(P)` duplicate free).
 
-    PARTIAL: that two top nodes share a codimension-1 NODE iff the two sections are the same
-    geometric entity, and that `higher_nodes` of a face lists exactly the top nodes containing it,
-    is the catalogue invariant of C17 (`C17_catalogue_canonical`, proved there only for one level);
-    here it enters as the hypotheses `hinj`/`hmem` (positions of registered neighbours are
-    distinct top nodes). -/
-theorem C18_ifem_connections_partial (sm : SplineModel) (cs : List Conn) (h : sm.connections = .ok cs)
-    (hinj : ∀ a ∈ sm.tops, ∀ b ∈ sm.tops, sm.tops.idxOf a = sm.tops.idxOf b → a = b)
-    (hmem : ∀ sub, ∀ t ∈ ((sm.cat.node sub).higherAt sm.pardim).getD [], t ∈ sm.tops) :
+    PARTIAL only in the universe: rational patches are outside C17's catalogue theorems (the
+    weight-sum normalisation of `compute`); for them the statement is covered by the
+    correspondence run and the geometric oracle. -/
+theorem C18_ifem_connections_partial {nc : ℕ} (P D : ℕ) (frh : Bool) (ktol : ℚ)
+    (patches : List Obj) (tw : List ℕ) (sm0 sm : SplineModel)
+    (hnew : SplineModel.new P D frh = .ok sm0)
+    (hgu : ∀ p ∈ patches, GU nc p ∧ p.pardim ≤ P)
+    (hadd : sm0.add ktol patches tw = .ok sm) (hP : 1 ≤ P) (hP3 : P ≤ 3) :
+    ∃ cs : List Conn, sm.connections = .ok cs ∧
     cs.map (fun c => (c.master - 1, c.midx - 1, c.slave - 1, c.sidx - 1)) = connPairs sm.topLowers sm.topNbrs ∧
     (connPairs sm.topLowers sm.topNbrs).Nodup ∧
     (∀ a i b j, (a, i, b, j) ∈ connPairs sm.topLowers sm.topNbrs ↔
-      ∃ la sub, sm.topLowers[a]? = some la ∧ la[i]? = some sub ∧ b ∈ sm.topNbrs sub ∧ a ≤ b ∧
-        (sm.topLowers.getD b [])[j]? = some sub ∧ (b = a → i < j)) ∧
+      a < sm.tops.length ∧ b < sm.tops.length ∧ i < sm.faceSecs.length ∧ j < sm.faceSecs.length ∧
+      Equiv ((sm.topObj a).sect (sm.faceSecs.getD i [])) ((sm.topObj b).sect (sm.faceSecs.getD j [])) ∧
+      (a < b ∨ (a = b ∧ i < j))) ∧
     (∀ c ∈ cs, c.master ≤ c.slave ∧ (c.master = c.slave → c.midx < c.sidx) ∧ 1 ≤ c.master ∧ 1 ≤ c.midx ∧
       sm.connOf (c.master - 1, c.midx - 1, c.slave - 1, c.sidx - 1) = .ok c) := by
+  obtain ⟨hI, hsp, -, -⟩ := fresh_add_inv (nc := nc) P D frh ktol patches tw sm0 sm hnew hgu hadd
+  have hP' : 1 ≤ sm.pardim := by rw [hsp]; exact hP
+  have hP3' : sm.pardim ≤ 3 := by rw [hsp]; exact hP3
+  obtain ⟨cs, h⟩ := connections_total sm hI hP' hP3'
   have hpairs := connections_pairs sm cs h
-  refine ⟨hpairs, nodup_connPairs _ _ (topNbrs_nodup sm hinj hmem), mem_connPairs _ _, ?_⟩
+  have hmemiff := mem_connPairs_catalogue sm hI hP' hP3'
+  refine ⟨cs, h, hpairs, nodup_connPairs _ _ (topNbrs_nodup sm (tops_idxOf_inj sm) (fun sub t ht => higher_mem_tops sm hI sub t ht)),
+    hmemiff, ?_⟩
   intro c hc
   have hq : (c.master - 1, c.midx - 1, c.slave - 1, c.sidx - 1) ∈ connPairs sm.topLowers sm.topNbrs := by
     rw [← hpairs]; exact List.mem_map_of_mem hc
   obtain ⟨q, hq', hcq⟩ := List.mem_mapM_ok h c hc
   have hcq' := connOf_ok sm q c hcq
-  obtain ⟨la, sub, -, -, -, hab, -, hij⟩ := (mem_connPairs _ _ _ _ _ _).1 hq
+  obtain ⟨-, -, -, -, -, hord⟩ := (hmemiff _ _ _ _).1 hq
   have hshape := connOf_shape sm q c hcq
   rw [hcq']
   refine ⟨?_, ?_, hshape.1, hshape.2.1, hcq⟩
   · omega
   · intro hms
-    have := hij (by omega)
     omega
 
 /-! ## OpenFOAM -/
@@ -304,7 +320,8 @@ theorem C18_ifem_connections_partial (sm : SplineModel) (cs : List Conn) (h : sm
     and the `boundary` entries `(name, nFaces, startFace)` written from the `groupby` runs
     partition the boundary part of the list: the faces `startFace … startFace+nFaces-1` are exactly
     named by the entry and lie inside the list, every named face lies in the block of the entry
-    with its name, and no name has two entries. -/
+    with its name, no name has two entries, and the patch count declared at the head of the
+    `boundary` file (`len(set(names) - {None})`) is the number of entries. -/
 theorem C18_openfoam_order (faces : List Face) :
     let o := ofoamWrite faces
     o.faces.Perm faces ∧ o.faces.Pairwise FoamLe ∧
@@ -313,7 +330,7 @@ theorem C18_openfoam_order (faces : List Face) :
       0 < e.2.1 ∧ e.2.2 + e.2.1 ≤ o.faces.length) ∧
     (∀ i nm, (o.faces.map (·.name))[i]? = some (some nm) →
       ∃ e ∈ o.entries, e.1 = nm ∧ e.2.2 ≤ i ∧ i < e.2.2 + e.2.1) ∧
-    (o.entries.map (·.1)).Nodup := by
+    (o.entries.map (·.1)).Nodup ∧ o.declared = o.entries.length := by
   intro o
   have hsorted : (o.faces.map (·.name)).Pairwise nameKeyLe := by
     rw [List.pairwise_map]
@@ -322,7 +339,7 @@ theorem C18_openfoam_order (faces : List Face) :
     fun pre f post hl hf => internal_first o.faces pre post f hsorted hl hf,
     fun e he => ofoam_entry_block o.faces e he,
     fun i nm h => ofoam_entry_cover o.faces i nm h,
-    ofoam_entries_distinct o.faces hsorted⟩
+    ofoam_entries_distinct o.faces hsorted, ofoam_declared o.faces hsorted⟩
 
 /-! ## faces -/
 
